@@ -531,3 +531,14 @@ impl<'db> ProvisionalStatus<'db> {
         matches!(self, ProvisionalStatus::Provisional { .. })
     }
 }
+
+#[cfg(salsa_verif)]
+impl IterationStamp {
+    pub(crate) const fn verif_from_bits(bits: u16) -> Self {
+        Self(bits)
+    }
+
+    pub(crate) const fn verif_bits(self) -> u16 {
+        self.0
+    }
+}
